@@ -55,10 +55,7 @@ impl<R: AsyncRead + Unpin + Send + Sync> AsyncReadPacket for R {
     }
 
     async fn read_string(&mut self) -> Result<String, Error> {
-        let length = self.read_varint().await? as usize;
-
-        let mut buffer = vec![0; length];
-        self.read_exact(&mut buffer).await?;
+        let buffer = self.read_bytes().await?;
 
         String::from_utf8(buffer).map_err(|_| Error::InvalidEncoding)
     }
@@ -96,10 +93,16 @@ impl<R: AsyncRead + Unpin + Send + Sync> AsyncReadPacket for R {
     }
 
     async fn read_bytes(&mut self) -> Result<Vec<u8>, Error> {
-        let length = self.read_varint().await? as usize;
+        // a negative length is never valid
+        let length = self.read_varint().await?;
+        let length = u64::try_from(length).map_err(|_| Error::IllegalPacketLength)?;
 
-        let mut buffer = vec![0; length];
-        self.read_exact(&mut buffer).await?;
+        // let the buffer grow with the received bytes instead of trusting the announced length
+        let mut buffer = Vec::new();
+        let read = self.take(length).read_to_end(&mut buffer).await?;
+        if read as u64 != length {
+            return Err(std::io::Error::from(std::io::ErrorKind::UnexpectedEof).into());
+        }
 
         Ok(buffer)
     }
